@@ -15,10 +15,14 @@ import (
 	"os"
 	"path/filepath"
 	"sort"
+	"strconv"
+	"strings"
 
 	"com.tuntun.rangers/node/src/consensus/groupsig"
 	"com.tuntun.rangers/node/src/consensus/logical"
+	"com.tuntun.rangers/node/src/consensus/logical/group_create"
 	"com.tuntun.rangers/node/src/consensus/model"
+	"com.tuntun.rangers/node/src/middleware/types"
 	"verif/harness/internal/cryptoutil"
 	"verif/harness/internal/vutil"
 )
@@ -107,7 +111,8 @@ func main() {
 	salt := flag.Int64("salt", 0, "shard number")
 	nRandom := flag.Int("random", 0, "seeded random cases per group")
 	reps := flag.Int("reps", 2, "direct recoveries per case")
-	ktable := flag.Bool("ktable", false, "emit GetGroupK(n) for n = 1..20")
+	ksweep := flag.Int("ksweep", 0, "emit, for n = 1..ksweep, the threshold the signing side uses (GetGroupK) and the one the DKG deals with")
+	big := flag.String("big", "", "comma separated group sizes for one DKG + one recovery each (sizes beyond the default maximum)")
 	flag.Parse()
 	if *scratch == "" {
 		vutil.Fatalf("--scratch required")
@@ -129,11 +134,35 @@ func main() {
 	rng := vutil.Rng(13 + 1000**salt)
 	counts := map[string]int{}
 
-	if *ktable {
-		for n := 1; n <= 20; n++ {
-			emit("K", map[string]interface{}{"n": n, "k": model.Param.GetGroupK(n)})
+	if *ksweep > 0 {
+		// the two places a threshold is derived: model.Param.GetGroupK (round 1, GroupSignGenerator,
+		// group creation context) and the DKG node's own threshold() (degree + 1 of the dealt polynomial)
+		ids := make([]groupsig.ID, *ksweep)
+		for i := range ids {
+			ids[i] = cryptoutil.NewMiner(rng, 0).ID
+		}
+		mi := cryptoutil.NewMiner(rng, 0)
+		for n := 1; n <= *ksweep; n++ {
+			gh := &types.GroupHeader{Extends: fmt.Sprintf("ksweep-%d", n)}
+			gh.Hash = gh.GenHash()
+			node := group_create.VerifNewDKGNode(mi, &model.GroupInitInfo{GroupHeader: gh, GroupMembers: ids[:n]})
+			if node == nil {
+				vutil.Fatalf("cannot build a DKG node for %d members", n)
+			}
+			emit("K", map[string]interface{}{"n": n, "k": model.Param.GetGroupK(n), "dkgK": node.Threshold()})
 			counts["k"]++
 		}
+	}
+	bigSizes := []int{}
+	for _, f := range strings.Split(*big, ",") {
+		if f == "" {
+			continue
+		}
+		n, err := strconv.Atoi(f)
+		if err != nil {
+			vutil.Fatalf("--big: %v", err)
+		}
+		bigSizes = append(bigSizes, n)
 	}
 	byN := map[int][]tcase{}
 	for _, c := range cases {
@@ -142,6 +171,17 @@ func main() {
 	var ns []int
 	for n := range byN {
 		ns = append(ns, n)
+	}
+	for _, n := range bigSizes {
+		k := model.Param.GetGroupK(n)
+		c := tcase{N: n, K: k}
+		for j := 1; j <= k; j++ {
+			c.Subset = append(c.Subset, j)
+			c.Order = append(c.Order, j)
+		}
+		byN[n] = append(byN[n], c)
+		ns = append(ns, n)
+		counts["big"]++
 	}
 	sort.Ints(ns)
 	idx := 0
@@ -175,7 +215,7 @@ func main() {
 		list := byN[n]
 		// seeded random cases: random subsets (also one below the threshold) in random order
 		k := model.Param.GetGroupK(n)
-		for r := 0; r < *nRandom; r++ {
+		for r := 0; r < *nRandom && n <= 16; r++ {
 			m := k + rng.Intn(n-k+1)
 			if r == 0 && k > 1 {
 				m = k - 1
@@ -196,7 +236,7 @@ func main() {
 		}
 	}
 	tr.Close()
-	fmt.Printf("c13: cases=%d dkg=%d deliver=%d dupDeliver=%d arrive=%d recovered=%d superset=%d below=%d k=%d events=%d\n",
+	fmt.Printf("c13: cases=%d dkg=%d deliver=%d dupDeliver=%d arrive=%d recovered=%d superset=%d below=%d k=%d big=%d events=%d\n",
 		counts["cases"], counts["dkg"], counts["deliver"], counts["dupDeliver"], counts["arrive"], counts["recovered"],
-		counts["superset"], counts["below"], counts["k"], tr.N)
+		counts["superset"], counts["below"], counts["k"], counts["big"], tr.N)
 }
